@@ -401,6 +401,9 @@ func (db *SingleBucketBackend) PutObject(
 
 	f, err := db.fs.Create(objectFilePath)
 	if err != nil {
+		// The file system refused the name (a segment longer than a file name,
+		// for example): do not leave the directories just made for it behind.
+		db.removeEmptyDirsLocked(objectName)
 		return result, err
 	}
 
@@ -506,9 +509,15 @@ func (db *SingleBucketBackend) deleteObjectLocked(bucketName, objectName string)
 		return err
 	}
 
-	// Remove the directories left behind by the key as long as they are empty:
-	// S3 has no directories and a left-over one would be listed as a common
-	// prefix.
+	db.removeEmptyDirsLocked(objectName)
+
+	return nil
+}
+
+// removeEmptyDirsLocked removes the directories left behind by the key as long
+// as they are empty: S3 has no directories and a left-over one would be listed
+// as a common prefix.
+func (db *SingleBucketBackend) removeEmptyDirsLocked(objectName string) {
 	for dir := path.Dir(path.Clean(objectName)); dir != "." && dir != "/" && dir != ".." && !strings.HasPrefix(dir, "../"); dir = path.Dir(dir) {
 		entries, err := afero.ReadDir(db.fs, filepath.FromSlash(dir))
 		if err != nil || len(entries) > 0 {
@@ -518,8 +527,6 @@ func (db *SingleBucketBackend) deleteObjectLocked(bucketName, objectName string)
 			break
 		}
 	}
-
-	return nil
 }
 
 // CreateBucket cannot be implemented by this backend. See MultiBucketBackend if you
